@@ -301,6 +301,17 @@ func (fg *FnGen) dispatchCall(fr *Frame, site ssa.Instruction, c *ssa.CallCommon
 	if d.static != nil && fg.inlineable(d.static, fr.depth) && !fg.onStack(fr, d.static) {
 		if _, isClosure := c.Value.(*ssa.MakeClosure); !isClosure {
 			if res, ok := fg.leafApply(fr, d.static, args, st); ok {
+				// the value a getter returns is a well-formed Go value of its type (slice header, integer range)
+				if !fg.noDefs {
+					for i, r := range res {
+						if i < d.sig.Results().Len() && !hasBound(r) {
+							switch d.sig.Results().At(i).Type().Underlying().(type) {
+							case *types.Slice, *types.Interface:
+								fg.assumeValid(r, d.sig.Results().At(i).Type(), reach)
+							}
+						}
+					}
+				}
 				return res, st
 			}
 		}
